@@ -5,6 +5,11 @@ ROOT = os.path.dirname(os.path.dirname(os.path.abspath(__file__)))
 
 # id -> (category, technique, text, note, design_ref)
 CHECKS = {
+ "C16": ("model_checking",
+         "stateless model checking of the real code under a cooperative scheduler (check-time AST instrumentation of every sync/atomic/channel/go operation, transport operations as scheduling points), depth-first enumeration of all schedules up to a preemption bound with happens-before state caching",
+         "Scenarios X1-X5 (X6 in thorough): connections that are idle, in the middle of reading a message, about to start a handler or inside a handler (handlers carry yield points), 1-2 concurrent Close callers plus a later second Close, Close racing the start of Serve. Every schedule with <=2 (quick, 1.26M schedules / 170k happens-before states) or <=3 (thorough) preemptions is executed on the instrumented real code. Oracle on every schedule: no thread panics, no deadlock, every Close and Serve return (Serve nil), no parser/statement function is running when Close returns and none starts afterwards (logical clock).",
+         "Exhaustive up to the preemption bound for data-race-free code (C15 checks race freedom). The instrumented sources are regenerated from the current /repo tree on every run; nothing is committed to /repo. WaitGroup contract misuse is reported as a note only.",
+         "DESIGN.md §3 C16"),
  "C01": ("model_checking",
          "exhaustive enumeration of (startup parameters x message in place of the password x validator outcome x continuation history x delivery mode) on a real server, judged by a three-state reference machine plus a differential run without authentication",
          "27 messages in place of the password (well-formed with accepting / rejecting / failing validator, malformed, every other type byte, truncated, oversized, EOF) x 3 startup parameter sets x all continuations of <=2 (quick) / <=3 (thorough) letters x {pipelined in one segment, after quiescence} run on a fresh real Server; non-accepted => no AuthenticationOk, no ParameterStatus, no reply to later input, no callback, connection closed, class-28 error for a wrong password; accepted => same transcript and callbacks as without authentication.",
